@@ -44,6 +44,9 @@ func genScenario(t *rapid.T, kind string) LeaseScenario {
 		s.Waiters = rapid.SampledFrom([]int{1, 2, 2, 3}).Draw(t, "waiters")
 	case "unlockrace":
 		s.After = rapid.Bool().Draw(t, "after")
+	case "bystander":
+		s.After = rapid.Bool().Draw(t, "after")
+		s.Waiters = rapid.IntRange(0, 2).Draw(t, "others")
 	case "waithold":
 		s.Wait10 = rapid.SampledFrom([]int{3, 6, 9, 12, 18, 25}).Draw(t, "wait10")
 	case "handoff":
@@ -55,7 +58,7 @@ func genScenario(t *rapid.T, kind string) LeaseScenario {
 }
 
 func recordLease(s LeaseScenario, info LeaseInfo) {
-	nt := (s.Kind == "hold" && info.InjectedFailures > 0) || s.Kind == "death" || s.Kind == "handoff" || s.Kind == "waithold" || (s.Kind == "unlockrace" && info.HeldInFlight)
+	nt := (s.Kind == "hold" && info.InjectedFailures > 0) || s.Kind == "death" || s.Kind == "handoff" || s.Kind == "waithold" || (s.Kind == "bystander" && info.HeldInFlight) || (s.Kind == "unlockrace" && info.HeldInFlight)
 	cl := []string{"scenario:" + s.Kind, fmt.Sprintf("lease_ms:%d", s.LeaseMs)}
 	if info.Retried > 0 {
 		cl = append(cl, "confirmed_only_after_retry")
@@ -103,8 +106,8 @@ func TestC05Rapid(t *testing.T) {
 		var batch []LeaseScenario
 		races := 0
 		for i := 0; i < n; i++ {
-			kind := rapid.SampledFrom([]string{"hold", "hold", "hold", "death", "death", "unlockrace", "handoff", "handoff", "waithold"}).Draw(rt, "kind")
-			if kind == "unlockrace" {
+			kind := rapid.SampledFrom([]string{"hold", "hold", "hold", "death", "death", "unlockrace", "handoff", "handoff", "waithold", "bystander"}).Draw(rt, "kind")
+			if kind == "unlockrace" || kind == "bystander" {
 				if races >= 3 { // every such scenario parks one worker of the timer pool for a while
 					kind = "hold"
 				}
@@ -142,6 +145,7 @@ func TestC05EveryK(t *testing.T) {
 	for _, w := range []int{6, 12, 22} {
 		batch = append(batch, LeaseScenario{Kind: "waithold", LeaseMs: lease, Wait10: w})
 	}
+	batch = append(batch, LeaseScenario{Kind: "bystander", LeaseMs: lease, After: false, Waiters: 1}, LeaseScenario{Kind: "bystander", LeaseMs: lease, After: true, Waiters: 2})
 	for _, ph := range []int{90, 99, 105} {
 		for _, same := range []bool{false, true} {
 			batch = append(batch, LeaseScenario{Kind: "handoff", LeaseMs: lease, PhasePct: ph, Same: same})
@@ -170,6 +174,7 @@ func TestC01LongWaiter(t *testing.T) {
 	for _, w := range vstat.Pick([]int{6, 12, 22}, []int{3, 6, 9, 12, 15, 22, 31}) {
 		batch = append(batch, LeaseScenario{Kind: "waithold", LeaseMs: 300, Wait10: w, OnlyExcl: true})
 	}
+	batch = append(batch, LeaseScenario{Kind: "bystander", LeaseMs: 300, After: false, Waiters: 1, OnlyExcl: true}, LeaseScenario{Kind: "bystander", LeaseMs: 300, After: true, Waiters: 2, OnlyExcl: true})
 	// an ownerless record expires under several waiters: they must take the lock one at a time
 	for i := 0; i < vstat.Pick(4, 12); i++ {
 		batch = append(batch, LeaseScenario{Kind: "death", LeaseMs: 300, PhasePct: 10 + 20*(i%5), Renewals: i % 2, Waiters: 2 + i%2, OnlyExcl: true})
